@@ -47,6 +47,7 @@ def atoms(seed):
         ("ua-over1", 9, 3, UA128, b"!"),
         ("ua-over40", 9, 3, UA128, b"0123456789" * 4),
         ("bof2", 16, 1, b"\x00\x02"),
+        ("bof-2021", 16, 1, b"\x07\xe5"),  # same index, a value outside the allocator range: still the same setting
         ("sysc", 17, 1, b"\x00\x0c"),
         ("reuse", 48, 1, b"\x00\x01"),
         ("inj36short", 36, 1, b"\x00\x03"),
@@ -75,7 +76,7 @@ def atoms(seed):
     return A
 
 
-CORE = ("proto8", "wmff", "ua-short", "ua-over1", "inj36short", "wmh36ptr", "wmh36int", "gap75", "noneffff", "dup-proto", "bof2", "ptr256", "short-len4")
+CORE = ("proto8", "wmff", "ua-short", "ua-over1", "inj36short", "wmh36ptr", "wmh36int", "gap75", "noneffff", "dup-proto", "bof2", "bof-2021", "ptr256", "short-len4")
 ENDINGS = ("eof", "term", "term+garbage", "pad4096", "lone-byte", "trunc-record")
 
 
